@@ -4,6 +4,7 @@ package verifharness
 
 import (
 	"context"
+	"encoding/binary"
 	"fmt"
 	"io"
 	"math/rand"
@@ -22,6 +23,7 @@ import (
 	"google.golang.org/grpc/codes"
 	"google.golang.org/grpc/metadata"
 	"google.golang.org/grpc/status"
+	"google.golang.org/protobuf/proto"
 	"google.golang.org/protobuf/types/known/wrapperspb"
 )
 
@@ -180,6 +182,34 @@ func TestC14Steps(t *testing.T) {
 		}
 		runClientScenarioAs(t, idx, "c14-steps", sc, em, "C14Step", nil)
 	}
+	// unusual caller metadata on an open (it succeeds or fails cleanly), then the call ends (cancel / reply / read failure):
+	// the registry is back to idle
+	idx := n
+	seen := map[string]bool{}
+	for _, md := range mdKinds {
+		if seen[md] {
+			continue
+		}
+		seen[md] = true
+		for v := 0; v < 3; v++ {
+			acts := []CAct{{Op: "stream", MD: md}, {Op: "unary", B: 51, MD: md}}
+			switch v {
+			case 0:
+				acts = append(acts, CAct{Op: "cancel", C: 0}, CAct{Op: "cancel", C: 1})
+			case 1:
+				acts = append(acts, CAct{Op: "deliver", Env: &EnvSpec{Call: 0, Hdr: "ok:0", Status: &[2]int64{0, 0}, Trl: "ok:0", Guess: true}}, CAct{Op: "recv", C: 0},
+					CAct{Op: "deliver", Env: &EnvSpec{Call: 1, Hdr: "ok:0", Body: i64(5100), Trl: "ok:0", Guess: true}})
+			case 2:
+				acts = append(acts, CAct{Op: "stream", MD: md}, CAct{Op: "cancel", C: 2}, CAct{Op: "failread"}, CAct{Op: "recv", C: 0})
+			}
+			acts = append(acts, CAct{Op: "tick", B: 1000})
+			sc := clientScenario{Acts: acts, WithStats: idx%2 == 0, Tags: []string{"caller-metadata:" + md, fmt.Sprintf("ending=%d", v)}}
+			if want(idx) {
+				runClientScenarioAs(t, idx, "c14-steps", sc, em, "C14Step", nil)
+			}
+			idx++
+		}
+	}
 }
 
 // ---------------------------------------------------------------- long histories (Rig C: real client, real server)
@@ -197,6 +227,24 @@ type longRPC struct {
 	stream  bool
 	result  string
 	fault   *bodyFaultRW
+	bigSize int // outcome bigmsg: the size on the wire (Body.Data) of the one message the handler sends
+}
+
+// Message sizes at round binary limits (a receive limit, a frame size, a buffer class are where a change would put one).
+var bigSmall = []int{64<<10 - 1, 64 << 10, 64<<10 + 1, 1<<20 - 1, 1 << 20, 1<<20 + 1}
+var bigLarge = []int{4<<20 - 1, 4 << 20, 4<<20 + 1, 5 << 20, 16<<20 - 1, 16<<20 + 1}
+
+// bigValue returns a BytesValue whose marshalled form has exactly n bytes (n >= 16); its content is a length token: the
+// first 8 bytes say n, the rest is zero.
+func bigValue(n int) *wrapperspb.BytesValue {
+	for v := n - 8; v < n; v++ {
+		m := &wrapperspb.BytesValue{Value: make([]byte, v)}
+		if proto.Size(m) == n {
+			binary.BigEndian.PutUint64(m.Value, uint64(n))
+			return m
+		}
+	}
+	panic("no value of that marshalled size")
 }
 
 func (l *longRPC) openGate() { l.gateMu.Do(func() { close(l.gate) }) }
@@ -245,6 +293,18 @@ func (g *longRig) echo() *echoImpl {
 		},
 		stream: func(kind string, s grpc.ServerStream) error {
 			l := g.get(mdN(s.Context()))
+			if l != nil && l.outcome == "bigmsg" {
+				// one request, one LARGE response, then the handler waits for the end of the RPC (its context)
+				var m wrapperspb.BytesValue
+				if err := s.RecvMsg(&m); err != nil {
+					return err
+				}
+				if err := s.SendMsg(bigValue(l.bigSize)); err != nil {
+					return err
+				}
+				<-s.Context().Done()
+				return status.FromContextError(s.Context().Err()).Err()
+			}
 			if l != nil && l.outcome == "srvabort" {
 				// reads one message, then gives up on the RPC while the client is still sending
 				var m wrapperspb.BytesValue
@@ -348,10 +408,18 @@ func clCensus() (mux, loops int) {
 		strings.Count(s, "created by github.com/avos-io/goat/internal/client.NewStream")
 }
 
+var longMDKinds = []string{"none", "none", "grpc-trace-id", "none", "ordinary", "space", "none", "upper", "nonascii", "none", "empty-key", "nul", "none", "nonprint",
+	"many17", "none", "bin", "pseudo", "none", "grpc-status"}
+
 func (l *longRPC) run(cc *goat.ClientConn) {
 	base, cancel := context.WithCancel(context.Background())
 	l.cancel = cancel
 	ctx := metadata.AppendToOutgoingContext(base, "n", strconv.Itoa(l.n))
+	// unusual caller metadata on one RPC in three (not grpc-timeout: the real server would arm it as the RPC's deadline)
+	if md := callerMD(longMDKinds[l.n%len(longMDKinds)]); md != nil {
+		cur, _ := metadata.FromOutgoingContext(ctx)
+		ctx = metadata.NewOutgoingContext(base, metadata.Join(cur, md))
+	}
 	if l.outcome == "deadline" {
 		var c2 context.CancelFunc
 		ctx, c2 = context.WithTimeout(ctx, time.Hour)
@@ -390,6 +458,29 @@ func (l *longRPC) run(cc *goat.ClientConn) {
 		// client's writes until both are written)
 		l.cancel()
 		drain()
+		return
+	}
+	if l.outcome == "bigmsg" {
+		<-l.stage
+		if err := cs.SendMsg(&wrapperspb.BytesValue{Value: payloadOf(tok)}); err != nil {
+			drain()
+			return
+		}
+		var m wrapperspb.BytesValue
+		err := cs.RecvMsg(&m)
+		switch {
+		case err != nil:
+			l.result = "big:" + classOf(err)
+		case proto.Size(&m) != l.bigSize || binary.BigEndian.Uint64(m.Value) != uint64(l.bigSize):
+			l.result = "big:WRONG-MESSAGE"
+		default:
+			l.result = "big:ok"
+		}
+		// the caller has what it wanted (or an error) and ends the RPC
+		l.cancel()
+		r := l.result
+		drain()
+		l.result = r
 		return
 	}
 	if l.outcome == "srvabort" {
@@ -452,10 +543,10 @@ func TestC14Long(t *testing.T) {
 	em.Marker("begin", idx)
 	r := newRand(1401)
 	kinds := []string{"Unary", "Bidi", "CStream", "SStream"}
-	outcomes := []string{"ok", "status", "cancel", "deadline", "reset", "failopen", "sendfail", "srvabort", "cancelnow"}
+	outcomes := []string{"ok", "status", "cancel", "deadline", "reset", "failopen", "sendfail", "srvabort", "cancelnow", "bigmsg"}
 	var samples []string
 	hist := map[string]int{}
-	maxInflight, idleSamples, maxSrv, srvLeaked := 0, 0, 0, 0
+	maxInflight, idleSamples, maxSrv, srvLeaked, nbig := 0, 0, 0, 0, 0
 	var recent, leakNotes []string
 	leaked := bubble(t, func(t *testing.T) {
 		l := NewLink(false)
@@ -602,6 +693,19 @@ func TestC14Long(t *testing.T) {
 				}
 				if a.outcome == "cancelnow" && a.kind == "Unary" {
 					a.outcome = "cancel"
+				}
+				if a.outcome == "bigmsg" {
+					if a.kind == "Unary" {
+						a.outcome = "ok"
+					} else {
+						nbig++
+						if nbig%4 == 0 {
+							a.bigSize = bigLarge[(nbig/4)%len(bigLarge)]
+						} else {
+							a.bigSize = bigSmall[nbig%len(bigSmall)]
+						}
+						hist[fmt.Sprintf("bigmsg-size:%d", a.bigSize)]++
+					}
 				}
 				started++
 				g.mu.Lock()
